@@ -78,6 +78,18 @@ def build_impl(name="impl", hooks=True, extra=(), srcdir=None):
     return exe
 
 
+def build_shim():
+    """LD_PRELOAD shim for short reads/writes and n-th call failures (harness/preload_io.c)."""
+    out = subdir("harness")
+    so = os.path.join(out, "preload_io.so")
+    if not os.path.exists(so):
+        rc, err = _cc(["gcc", "-O1", "-shared", "-fPIC", "-o", so, os.path.join(VERIF, "harness", "preload_io.c"),
+                       "-ldl", "-pthread"])
+        if rc != 0:
+            raise Infra("shim build failed: " + err[-2000:])
+    return so
+
+
 def build_harness(name, cfile, srcdir, extra=()):
     """Compile a harness that #includes files from the copied source tree."""
     out = subdir("harness")
